@@ -197,6 +197,14 @@ def sweep(a):
             elif j.get("outcome") != "sweep-error":   # a mutant the sweep itself failed on is tried again
                 done[j["key"]] = j
     head = subprocess.run(["git", "-C", REPO, "rev-parse", "HEAD"], stdout=subprocess.PIPE, text=True).stdout.strip()
+    # build / suite outcomes do not depend on the property: reuse those already established for the same mutant of the same
+    # file by the sweep of another property (same /repo HEAD); only ./check is property specific
+    shared = {}
+    for opid, (ometa, orecs) in load_results().items():
+        if opid != pid and ometa and ometa.get("repo_head") == head:
+            for r in orecs:
+                if r["outcome"] in ("stillborn", "suite-killed"):
+                    shared.setdefault(r["key"], (opid, r))
     survivors_so_far = sum(1 for j in done.values() if j["outcome"] not in ("stillborn", "suite-killed"))
     todo = [m for m in order if mkey(m) not in done]
     print("%s: files=%s sites=%d mutants=%d already tested=%d (suite-survivors %d) todo=%d" % (
@@ -250,6 +258,13 @@ def sweep(a):
                     return
                 rec = {"key": mkey(m), "pid": pid}
                 rec.update({k: m[k] for k in ("file", "id", "op", "desc", "line", "col", "func", "orig_line", "mut_line")})
+                if rec["key"] in shared:
+                    opid, r = shared[rec["key"]]
+                    rec["outcome"] = r["outcome"]; rec["reused_from"] = opid
+                    for k in ("build_err", "suite_tail", "suite_s"):
+                        if k in r:
+                            rec[k] = r[k]
+                    emit(rec); continue
                 try:
                     w.reset()
                     rc, txt, _ = run([exe, "-file", os.path.join(REPO, m["file"]), "-apply", str(m["id"])])
